@@ -135,6 +135,12 @@ func Gen(r *sx.Rng, idx int, focus string) sx.Tree {
 		// free-running
 		n := int64(r.Range(0, 40))
 		phases := []sx.Tree{sx.L(int64(r.Next() >> 8))}
+		if focus == "C18" && r.Chance(5) {
+			// the Setup of the replacement source fails (run in a child process: the executor exits then)
+			k := n / 3
+			phases = append(phases, sx.Ints(k, 0), sx.Ints(n-k, 1, 1), sx.Ints(1, 1))
+			return sx.T(sx.L(2), sx.L(2), sx.T(cfgs...), sx.T(phases...))
+		}
 		if focus == "C18" && r.Chance(9) {
 			k := n / 2
 			phases = append(phases, sx.Ints(k, 0), sx.Ints(n-k, 1))
@@ -232,7 +238,11 @@ func Gen(r *sx.Rng, idx int, focus string) sx.Tree {
 		}
 	}
 	ints = append(ints, sx.Ints(6))
-	return sx.T(sx.L(1), sx.L(1), sx.T(cfgs...), sx.T(ints...))
+	tmo := int64(1)
+	if focus == "C17" && stall && r.Chance(7) {
+		tmo = 6 // longer than any periodic activity inside the wait: the bound is the configured timeout, whatever it is
+	}
+	return sx.T(sx.L(1), sx.L(tmo), sx.T(cfgs...), sx.T(ints...))
 }
 
 // discardingIDs lists the ids of enabled nodes (not handlers) marked discard_on_full_buffer whose ancestors are enabled.
